@@ -438,7 +438,16 @@ func checkNetconfOpenOrder(c *Ctx, r *Report) {
 	}
 	var goRead ssa.Instruction
 	for _, ci := range callInstrs(open) {
-		if g, ok := ci.(*ssa.Go); ok && g.Call.StaticCallee() == read {
+		if g, ok := ci.(*ssa.Go); ok {
+			isRead := g.Call.StaticCallee() == read
+			for _, callee := range c.Callees(g) { // also through a method value: readLoop := d.read; go readLoop()
+				if callee == read {
+					isRead = true
+				}
+			}
+			if !isRead {
+				continue
+			}
 			goRead = g
 		}
 	}
